@@ -78,8 +78,9 @@ fn run_once(c: &Call, cap: usize, poison_seed: u64, complement: bool) -> Run {
             *b = !*b;
         }
     }
-    let mut buf = poison.clone();
-    let res = invoke(c, &mut buf);
+    // the buffer's address residue modulo 8 varies with the call and the capacity
+    let want = (crate::rng::hash_bytes(poison_seed, &c.blob) as usize ^ cap ^ (c.dest as usize) ^ ((c.own as usize) << 1)) & 7;
+    let (res, buf) = invoke_aligned(c, &poison, want);
     Run { res, buf, poison }
 }
 
